@@ -177,7 +177,8 @@ where
 			}
 		}
 		let keychain = w.keychain(keychain_mask)?;
-		let parent_key_id = w.parent_key_id();
+		// the account the transaction was initiated from (not whichever is active now)
+		let parent_key_id = context.parent_key_id.clone();
 
 		if let Some(args) = context.late_lock_args.take() {
 			// Transaction was late locked, select inputs+change now
